@@ -18,16 +18,19 @@ Record patch := mkPatch { p_s : N; p_e : N; p_raw : str }.
 Definition slice := (N * N)%type.
 Definition p_slice (p : patch) : slice := (p_s p, p_e p).
 Definition slice_eqb (a b : slice) : bool := (fst a =? fst b) && (snd a =? snd b).
-Definition mem_slice (x : slice) (l : list slice) : bool := existsb (slice_eqb x) l.
 
-(** [generate_source_patches]: keep the first patch of every [source_slice]
-    ([dedupe_tuple] is the source slice), then a stable sort by [source_slice.start]. *)
-Fixpoint dedupe (seen : list slice) (ps : list patch) : list patch :=
+(** [generate_source_patches]: keep the first patch of every [dedupe_tuple] = (source slice,
+    fixed_raw), then a stable sort by [source_slice.start]. *)
+Definition pkey := (slice * str)%type.
+Definition p_key (p : patch) : pkey := (p_slice p, p_raw p).
+Definition key_eqb (a b : pkey) : bool := slice_eqb (fst a) (fst b) && str_eqb (snd a) (snd b).
+Definition mem_key (x : pkey) (l : list pkey) : bool := existsb (key_eqb x) l.
+Fixpoint dedupe (seen : list pkey) (ps : list patch) : list patch :=
   match ps with
   | [] => []
   | p :: ps' =>
-      if mem_slice (p_slice p) seen then dedupe seen ps'
-      else p :: dedupe (p_slice p :: seen) ps'
+      if mem_key (p_key p) seen then dedupe seen ps'
+      else p :: dedupe (p_key p :: seen) ps'
   end.
 Fixpoint insert_by_start (p : patch) (l : list patch) : list patch :=
   match l with
@@ -68,20 +71,22 @@ Fixpoint slice_loop (ps : list patch) (so : list slice) (idx n : N) : list slice
       else em ++ gap ++ p_slice p :: slice_loop ps' so2 (p_e p) n
   end.
 
-(** [build_up_fixed_source_string]: a region is patched by the FIRST patch whose
-    source slice EQUALS the region. *)
-Fixpoint find_patch (r : slice) (ps : list patch) : option patch :=
+(** [build_up_fixed_source_string]: a region is patched by the first patch AFTER THE LAST ONE
+    USED whose source slice equals the region. *)
+Fixpoint find_from (r : slice) (ps : list patch) : option (patch * list patch) :=
   match ps with
   | [] => None
-  | p :: ps' => if slice_eqb (p_slice p) r then Some p else find_patch r ps'
+  | p :: ps' => if slice_eqb (p_slice p) r then Some (p, ps') else find_from r ps'
   end.
-Definition region_text (src : str) (ps : list patch) (r : slice) : str :=
-  match find_patch r ps with
-  | Some p => p_raw p
-  | None => sub src (fst r) (snd r)
+Fixpoint build (regions : list slice) (ps : list patch) (src : str) : str :=
+  match regions with
+  | [] => []
+  | r :: rs =>
+      match find_from r ps with
+      | Some (p, rest) => p_raw p ++ build rs rest src
+      | None => sub src (fst r) (snd r) ++ build rs ps src
+      end
   end.
-Definition build (regions : list slice) (ps : list patch) (src : str) : str :=
-  flat_map (region_text src ps) regions.
 
 Definition fix_string_so (src : str) (so : list slice) (ps : list patch) : str :=
   let f := generate_source_patches ps in
@@ -101,6 +106,14 @@ Fixpoint splice (src : str) (idx : N) (ps : list patch) : str :=
   | [] => sub src idx (len src)
   | p :: ps' => sub src idx (p_s p) ++ p_raw p ++ splice src (p_e p) ps'
   end.
+
+(** sorted by start with non-overlapping, well-formed ranges (no statement about duplicates) *)
+Fixpoint chain (idx : N) (ps : list patch) : Prop :=
+  match ps with
+  | [] => True
+  | p :: ps' => idx <= p_s p /\ p_s p <= p_e p /\ chain (p_e p) ps'
+  end.
+Definition sorted_chain (ps : list patch) : Prop := chain 0 ps.
 
 (** * Trees *)
 Record pos := mkPos { s0 : N; s1 : N; t0 : N; t1 : N }.   (* source_slice, templated_slice *)
